@@ -292,7 +292,12 @@ class QubitHamiltonian(QubitOperator):
     def n_terms(self):
         return len(self.terms)
 
-    def __iadd__(self, other_hamiltonian):
+    def _checked_operand(self, other_hamiltonian):
+        """Operand of an in-place sum, difference or product, after the checks on
+        the mapping attributes. A plain QubitOperator is returned as a
+        QubitHamiltonian carrying the attributes of self; numbers are returned
+        as they are.
+        """
 
         # Raise error if attributes are not the same across Hamiltonians. This
         # check is ignored if comparing to a QubitOperator or a bare
@@ -306,13 +311,27 @@ class QubitHamiltonian(QubitOperator):
             elif self.up_then_down != getattr(other_hamiltonian, "up_then_down", None):
                 raise RuntimeError("Spin ordering must be the same for all QubitHamiltonians.")
 
-        # A plain QubitOperator carries no mapping information: it is added as is.
+        # A plain QubitOperator carries no mapping information: it is used as is.
         if isinstance(other_hamiltonian, of.QubitOperator) and not isinstance(other_hamiltonian, QubitHamiltonian):
             plain_operator = other_hamiltonian
             other_hamiltonian = QubitHamiltonian(mapping=self.mapping, up_then_down=self.up_then_down)
             other_hamiltonian.terms = plain_operator.terms.copy()
 
-        return super(QubitOperator, self).__iadd__(other_hamiltonian)
+        return other_hamiltonian
+
+    def __iadd__(self, other_hamiltonian):
+        return super(QubitOperator, self).__iadd__(self._checked_operand(other_hamiltonian))
+
+    def __isub__(self, other_hamiltonian):
+        return super(QubitOperator, self).__isub__(self._checked_operand(other_hamiltonian))
+
+    def __imul__(self, other_hamiltonian):
+        return super(QubitOperator, self).__imul__(self._checked_operand(other_hamiltonian))
+
+    def __mul__(self, other_hamiltonian):
+        product = copy.deepcopy(self)
+        product *= other_hamiltonian
+        return product
 
     def __eq__(self, other_hamiltonian):
 
